@@ -241,15 +241,11 @@ type hostileGen struct {
 }
 
 func newHostileGen(seed int64, tier string) *hostileGen {
-	g := &hostileGen{seed: seed, tier: tier, n: 8000}
+	g := &hostileGen{seed: seed, tier: tier, n: 3000}
 	if tier == "thorough" {
-		g.n = 80000
+		g.n = 30000
 	}
-	for _, c := range allClasses {
-		if !c.Col && c.Name != "star" && c.Name != "distinct1" {
-			g.nonCo = append(g.nonCo, c)
-		}
-	}
+	g.nonCo = mixClasses
 	return g
 }
 
@@ -343,7 +339,11 @@ func (g *hostileGen) fill(rnd *rand.Rand, s string, focus string) string {
 		case "UNIT1":
 			b.WriteString(pick(rnd, units1))
 		case "CS":
-			b.WriteString(pick(rnd, charsets))
+			if rnd.Intn(8) == 0 {
+				b.WriteString(pick(rnd, charsets))
+			} else {
+				b.WriteString(pick(rnd, implCS))
+			}
 		case "IS":
 			b.WriteString(pick(rnd, isTables))
 		case "SV":
